@@ -244,6 +244,32 @@ class AsciiMap:
 
         self._updateSlotSizeFromData()
         self._makeOffsets()
+        self._checkAsciiReadsBackToData()
+
+    def _checkAsciiReadsBackToData(self):
+        """
+        Make sure that the ascii lines represent all of the i,j data, and nothing else.
+
+        Data that cannot be drawn faithfully (e.g. because the extent of the map cannot
+        be inferred from it) must be refused rather than written with missing entries.
+        """
+
+        def withoutPlaceholders(labelByIndices):
+            labels = {ij: str(v).replace(" ", "") for ij, v in labelByIndices.items()}
+            return {ij: v for ij, v in labels.items() if v != PLACEHOLDER}
+
+        readBack = self.__class__()
+        try:
+            readBack.readAscii(str(self))
+        except Exception as ee:
+            raise ValueError(f"Cannot write asciimap from this data: {ee}")
+
+        if withoutPlaceholders(readBack.asciiLabelByIndices) != withoutPlaceholders(
+            self.asciiLabelByIndices
+        ):
+            raise ValueError(
+                "Cannot write asciimap from this data without losing or moving entries."
+            )
 
     @staticmethod
     def _removeTrailingPlaceholders(line):
